@@ -14,17 +14,17 @@ Ltac case_neg :=
 Lemma sql_tokens_app a b : sql_tokens (a ++ b) = sql_tokens a ++ sql_tokens b.
 Proof. apply flat_map_app. Qed.
 Lemma sql_tokens_cons_plain t r :
-  (forall z, t <> TNum z) -> sql_tokens (t :: r) = t :: sql_tokens r.
-Proof. intros H. destruct t; try reflexivity. exfalso; eapply H; reflexivity. Qed.
+  split_num t = [t] -> sql_tokens (t :: r) = t :: sql_tokens r.
+Proof. intros H. unfold sql_tokens. cbn [flat_map]. rewrite H. reflexivity. Qed.
 Lemma split_num_nonempty t : split_num t <> [].
-Proof. destruct t; cbn [split_num]; try discriminate. match goal with |- context [(?z <? 0)%Z] => destruct (z <? 0)%Z end; discriminate. Qed.
+Proof. destruct t; cbn [split_num]; try discriminate; match goal with |- context [(?z <? 0)%Z] => destruct (z <? 0)%Z end; discriminate. Qed.
 Lemma sql_tokens_nil s : sql_tokens s = [] -> s = [].
 Proof.
   destruct s as [|t r]; [reflexivity|]. cbn. intros H. apply app_eq_nil in H as [H _].
   exfalso; eapply split_num_nonempty; eauto.
 Qed.
 Lemma is_lp_headed_sql s : is_lp_headed (sql_tokens s) = is_lp_headed s.
-Proof. destruct s as [|t r]; [reflexivity|]. destruct t; try reflexivity. cbn [sql_tokens flat_map split_num]. case_neg. Qed.
+Proof. destruct s as [|t r]; [reflexivity|]. destruct t; try reflexivity; cbn [sql_tokens flat_map split_num]; case_neg. Qed.
 Lemma is_null_text_sql s : is_null_text (sql_tokens s) = is_null_text s.
 Proof.
   destruct s as [|t r]; [reflexivity|]. destruct t; try reflexivity.
@@ -32,6 +32,7 @@ Proof.
     destruct r as [|u r']; [reflexivity|].
     destruct (flat_map split_num (u :: r')) eqn:E; [|reflexivity].
     apply sql_tokens_nil in E. discriminate.
+  - cbn [sql_tokens flat_map split_num]. case_neg.
   - cbn [sql_tokens flat_map split_num]. case_neg.
 Qed.
 Lemma sql_tokens_wrap s : sql_tokens (wrap s) = wrap (sql_tokens s).
@@ -77,7 +78,7 @@ Fixpoint rt (d : dialect) (n : node) : list tok :=
 Lemma sql_tokens_nil_eq : sql_tokens [] = [].
 Proof. reflexivity. Qed.
 Ltac st_norm :=
-  repeat first [ (rewrite sql_tokens_cons_plain by (intros ?; discriminate))
+  repeat first [ (rewrite sql_tokens_cons_plain by reflexivity)
                | rewrite sql_tokens_app | rewrite sql_tokens_nil_eq ].
 
 Lemma sql_tokens_insub neg a s :
@@ -123,13 +124,17 @@ Lemma atom_st_cases a :
   (exists z, a = AInt z /\ (z <? 0)%Z = true /\ atom_st a = [TOp BSub; TNum (- z)]) \/
   (exists z, a = AInt z /\ (z <? 0)%Z = false /\ atom_st a = [TNum z]) \/
   (exists s, a = AStr s /\ atom_st a = [TStr s]) \/
-  (a = ANone /\ atom_st a = [TNull]).
+  (a = ANone /\ atom_st a = [TNull]) \/
+  (exists h, a = AFlo h /\ (h <? 0)%Z = true /\ atom_st a = [TOp BSub; TFlo (- h)]) \/
+  (exists h, a = AFlo h /\ (h <? 0)%Z = false /\ atom_st a = [TFlo h]).
 Proof.
-  destruct a as [z|s|].
+  destruct a as [z|s| |h].
   - unfold atom_st. cbn [atom_toks sql_tokens flat_map split_num app].
     destruct (z <? 0)%Z eqn:E; [left|right; left]; exists z; auto.
   - right; right; left. exists s. auto.
-  - right; right; right. auto.
+  - right; right; right; left. auto.
+  - unfold atom_st. cbn [atom_toks sql_tokens flat_map split_num app].
+    destruct (h <? 0)%Z eqn:E; right; right; right; right; [left|right]; exists h; auto.
 Qed.
 
 (* ================================================================ the parser on rendered trees *)
@@ -205,7 +210,7 @@ Section Parse.
   Proof.
     induction n; cbn [wf]; intros W N; try discriminate.
     - eexists _, _; split; [reflexivity|discriminate].
-    - destruct (atom_st_cases a) as [(z & -> & Hz & E)|[(z & -> & Hz & E)|[(s & -> & E)|(-> & E)]]];
+    - destruct (atom_st_cases a) as [(z & -> & Hz & E)|[(z & -> & Hz & E)|[(s & -> & E)|[(-> & E)|[(h & -> & Hh & E)|(h & -> & Hh & E)]]]]];
         cbn [rt]; rewrite E; eexists _, _; (split; [reflexivity|discriminate]).
     - cbn [rt]. unfold sqlop_repr. eexists _, _; split; [reflexivity|discriminate].
     - cbn [rt]. destruct (is_sqlite d); unfold sqlop_repr; eexists _, _; (split; [reflexivity|discriminate]).
@@ -367,6 +372,8 @@ Section Parse.
   Proof. reflexivity. Qed.
   Lemma unary_num f z r : unary pt (S (S f)) (TNum z :: r) = POk (SNum z, r).
   Proof. reflexivity. Qed.
+  Lemma unary_flo f h r : unary pt (S (S f)) (TFlo h :: r) = POk (SFlo h, r).
+  Proof. reflexivity. Qed.
   Lemma unary_str f s r : unary pt (S (S f)) (TStr s :: r) = POk (SStr s, r).
   Proof. reflexivity. Qed.
   Lemma unary_null f r : unary pt (S (S f)) (TNull :: r) = POk (SNull, r).
@@ -418,7 +425,7 @@ Section Parse.
   (* a rendering starts with a token that can start an expression *)
   Definition is_start (t : tok) : bool :=
     match t with
-    | TLP | TNot | TNull | TNum _ | TStr _ | TCol _ | TFn _ => true
+    | TLP | TNot | TNull | TNum _ | TFlo _ | TStr _ | TCol _ | TFn _ => true
     | TOp BSub | TOp BAdd => true
     | _ => false
     end.
@@ -426,7 +433,7 @@ Section Parse.
   Proof.
     induction n; cbn [wf]; intros W; try discriminate.
     - eexists _, _; split; reflexivity.
-    - destruct (atom_st_cases a) as [(z & -> & Hz & E)|[(z & -> & Hz & E)|[(s & -> & E)|(-> & E)]]];
+    - destruct (atom_st_cases a) as [(z & -> & Hz & E)|[(z & -> & Hz & E)|[(s & -> & E)|[(-> & E)|[(h & -> & Hh & E)|(h & -> & Hh & E)]]]]];
         cbn [rt]; rewrite E; eexists _, _; split; reflexivity.
     - cbn [rt]. unfold sqlop_repr. eexists _, _; split; reflexivity.
     - cbn [rt]. destruct (is_sqlite d); unfold sqlop_repr; eexists _, _; split; reflexivity.
@@ -519,12 +526,14 @@ Section Main.
       fuel f. fuel f. cbn [rt app]. apply unary_col.
     - (* constant *)
       apply pack; try reflexivity. intros _ f rest Hf. cbn [need] in Hf. cbn [rt denote atom_sx].
-      destruct (atom_st_cases a) as [(z & -> & Hz & E)|[(z & -> & Hz & E)|[(s & -> & E)|(-> & E)]]];
-        rewrite E; cbn [app atom_sx]; unfold num_sx; rewrite ?Hz.
+      destruct (atom_st_cases a) as [(z & -> & Hz & E)|[(z & -> & Hz & E)|[(s & -> & E)|[(-> & E)|[(h & -> & Hh & E)|(h & -> & Hh & E)]]]]];
+        rewrite E; cbn [app atom_sx]; unfold num_sx, flo_sx; rewrite ?Hz, ?Hh.
       + fuel f. rewrite unary_neg. fuel f. fuel f. rewrite unary_num. reflexivity.
       + fuel f. fuel f. apply unary_num.
       + fuel f. fuel f. apply unary_str.
       + fuel f. fuel f. apply unary_null.
+      + fuel f. rewrite unary_neg. fuel f. fuel f. rewrite unary_flo. reflexivity.
+      + fuel f. fuel f. apply unary_flo.
     - (* SQLOp *)
       destruct op as [o| | |].
       + apply andb_true_iff in W as [Wa Wb].
@@ -668,7 +677,7 @@ Proof.
 Qed.
 Lemma atom_st_length a : 1 <= length (atom_st a).
 Proof.
-  destruct (atom_st_cases a) as [(z & -> & Hz & E)|[(z & -> & Hz & E)|[(s & -> & E)|(-> & E)]]];
+  destruct (atom_st_cases a) as [(z & -> & Hz & E)|[(z & -> & Hz & E)|[(s & -> & E)|[(-> & E)|[(h & -> & Hh & E)|(h & -> & Hh & E)]]]]];
     rewrite E; cbn [length]; lia.
 Qed.
 
